@@ -436,3 +436,59 @@ def rule_size_switch(ctx, rule='R05.8'):
                 samples.append('%s case %s: %d bytes = size of all %d members of that dtype' % (where, lab, size, len(members)))
     anchor(found >= 1, 'switch over the row dtype giving the byte count of a by-value field in output.c')
     ctx.covered(rule, 'byte counts of the writer\'s dtype switch equal the size of the members designated by the rows of that dtype', n, floor=9, samples=samples)
+
+
+def rule_inert_members(ctx, rule='R05.9'):
+    """R05.9: members classified `inert` above are not persisted because they cannot influence the trajectory. That is a
+    claim about the code: a condition reading such a member may only guard message/display calls and writes to inert
+    members - no return, break, continue or write to other simulation state - otherwise a restored simulation (latch
+    cleared) takes a different path than the running one."""
+    import glob, os
+    from .. import core
+    inert = {k for k, v in NOT_PERSISTED.items() if v[0] == 'inert'}
+    n = 0
+    samples = []
+    for path in sorted(glob.glob(os.path.join(core.REPO, 'src', '*.c'))):
+        cfile = os.path.basename(path)
+        if cfile in ('display.c', 'server.c', 'output.c', 'input.c'):
+            continue        # the front ends that own these members
+        try:
+            tu = cfront.load_tu(cfile)
+        except Exception:
+            continue
+        for fname in sorted(tu.funcs):
+            fn = tu.func(fname)
+            if cfront.body(fn) is None:
+                continue
+            for ifs in walk(cfront.body(fn)):
+                if ifs.get('kind') != 'IfStmt':
+                    continue
+                reads = set()
+                for m in walk(ifs['inner'][0]):
+                    # latches only: integer members; the pointer-valued ones are handles owned by the message/display/server code
+                    if m.get('kind') == 'MemberExpr' and m.get('name') in inert and 'reb_simulation' in qtype(strip(m['inner'][0])) and '*' not in qtype(m):
+                        reads.add(m['name'])
+                if not reads:
+                    continue
+                n += 1
+                where = 'src/%s:%s %s' % (cfile, line_of(ifs), fname)
+                for br in ifs['inner'][1:]:
+                    if not br.get('kind'):
+                        continue
+                    for x in walk(br):
+                        k = x.get('kind')
+                        bad = None
+                        if k in ('ReturnStmt', 'BreakStmt', 'ContinueStmt', 'GotoStmt'):
+                            bad = k.replace('Stmt', '').lower()
+                        elif is_assign(x):
+                            lv = strip(x['inner'][0])
+                            tgt = lv.get('name') if lv.get('kind') == 'MemberExpr' else None
+                            if lv.get('kind') == 'MemberExpr' and tgt not in inert and 'reb_simulation' in qtype(strip(lv['inner'][0])):
+                                bad = 'write to r->%s' % tgt
+                        if bad:
+                            ctx.report(rule, '%s:%s:%s' % (fname, sorted(reads)[0], bad.split(' ')[0]), where,
+                                       'the test of r->%s (not persisted: %s) guards a %s: the running simulation and one restored from a snapshot, where the member starts out cleared, take different paths'
+                                       % (sorted(reads)[0], NOT_PERSISTED[sorted(reads)[0]][1], bad))
+                            break
+                samples.append(where)
+    ctx.covered(rule, 'conditions on members classified inert (%s) guard nothing but messages and inert writes' % ', '.join(sorted(inert)), n, floor=2, samples=samples[:6])
